@@ -13,21 +13,27 @@ import (
 	"github.com/cronokirby/saferith"
 	"github.com/taurusgroup/multi-party-sig/internal/types"
 	"github.com/taurusgroup/multi-party-sig/pkg/ecdsa"
-	"github.com/taurusgroup/multi-party-sig/pkg/math/polynomial"
-	"github.com/taurusgroup/multi-party-sig/pkg/paillier"
-	"github.com/taurusgroup/multi-party-sig/pkg/pedersen"
-	cmpconfig "github.com/taurusgroup/multi-party-sig/protocols/cmp/config"
 	"github.com/taurusgroup/multi-party-sig/pkg/math/curve"
+	"github.com/taurusgroup/multi-party-sig/pkg/math/polynomial"
 	"github.com/taurusgroup/multi-party-sig/pkg/math/sample"
+	"github.com/taurusgroup/multi-party-sig/pkg/paillier"
 	"github.com/taurusgroup/multi-party-sig/pkg/party"
+	"github.com/taurusgroup/multi-party-sig/pkg/pedersen"
+	"github.com/taurusgroup/multi-party-sig/pkg/pool"
 	"github.com/taurusgroup/multi-party-sig/pkg/protocol"
 	"github.com/taurusgroup/multi-party-sig/protocols/cmp"
+	cmpconfig "github.com/taurusgroup/multi-party-sig/protocols/cmp/config"
 	"github.com/taurusgroup/multi-party-sig/protocols/doerner"
 	"github.com/taurusgroup/multi-party-sig/protocols/example"
 	"github.com/taurusgroup/multi-party-sig/protocols/frost"
 	"github.com/taurusgroup/multi-party-sig/verifharness/sim"
 	"github.com/taurusgroup/multi-party-sig/verifharness/toy"
 )
+
+// Pool is handed to every start function that takes one.  nil (the default) keeps all work on the calling goroutine,
+// which the deterministic simulation needs; scenarios that look at what a worker goroutine does with network input
+// set it for their duration.
+var Pool *pool.Pool
 
 // Group used everywhere.
 var Group = curve.Secp256k1{}
@@ -140,7 +146,7 @@ func FrostSign(cfgs map[party.ID]interface{}, signers []party.ID, msg []byte, si
 func CmpKeygen(ids []party.ID, t int, sid []byte) *Session {
 	s := &Session{Name: "cmp-keygen", IDs: sorted(ids), Makers: map[party.ID]Maker{}}
 	for _, id := range ids {
-		s.Makers[id] = multi(func() protocol.StartFunc { return cmp.Keygen(Group, id, ids, t, nil) }, sid)
+		s.Makers[id] = multi(func() protocol.StartFunc { return cmp.Keygen(Group, id, ids, t, Pool) }, sid)
 	}
 	return s
 }
@@ -150,7 +156,7 @@ func CmpRefresh(cfgs map[party.ID]interface{}, sid []byte) *Session {
 	ids := idsOf(cfgs)
 	s := &Session{Name: "cmp-refresh", IDs: ids, Makers: map[party.ID]Maker{}}
 	for _, id := range ids {
-		s.Makers[id] = multi(func() protocol.StartFunc { return cmp.Refresh(cfgs[id].(*cmp.Config), nil) }, sid)
+		s.Makers[id] = multi(func() protocol.StartFunc { return cmp.Refresh(cfgs[id].(*cmp.Config), Pool) }, sid)
 	}
 	return s
 }
@@ -159,7 +165,7 @@ func CmpRefresh(cfgs map[party.ID]interface{}, sid []byte) *Session {
 func CmpSign(cfgs map[party.ID]interface{}, signers []party.ID, msg []byte, sid []byte) *Session {
 	s := &Session{Name: "cmp-sign", IDs: sorted(signers), Makers: map[party.ID]Maker{}}
 	for _, id := range signers {
-		s.Makers[id] = multi(func() protocol.StartFunc { return cmp.Sign(cfgs[id].(*cmp.Config), signers, msg, nil) }, sid)
+		s.Makers[id] = multi(func() protocol.StartFunc { return cmp.Sign(cfgs[id].(*cmp.Config), signers, msg, Pool) }, sid)
 	}
 	return s
 }
@@ -168,7 +174,7 @@ func CmpSign(cfgs map[party.ID]interface{}, signers []party.ID, msg []byte, sid 
 func CmpPresign(cfgs map[party.ID]interface{}, signers []party.ID, sid []byte) *Session {
 	s := &Session{Name: "cmp-presign", IDs: sorted(signers), Makers: map[party.ID]Maker{}}
 	for _, id := range signers {
-		s.Makers[id] = multi(func() protocol.StartFunc { return cmp.Presign(cfgs[id].(*cmp.Config), signers, nil) }, sid)
+		s.Makers[id] = multi(func() protocol.StartFunc { return cmp.Presign(cfgs[id].(*cmp.Config), signers, Pool) }, sid)
 	}
 	return s
 }
@@ -177,7 +183,7 @@ func CmpPresign(cfgs map[party.ID]interface{}, signers []party.ID, sid []byte) *
 func CmpPresignOnline(cfgs map[party.ID]interface{}, pres map[party.ID]*ecdsa.PreSignature, signers []party.ID, msg []byte, sid []byte) *Session {
 	s := &Session{Name: "cmp-presign-online", IDs: sorted(signers), Makers: map[party.ID]Maker{}}
 	for _, id := range signers {
-		s.Makers[id] = multi(func() protocol.StartFunc { return cmp.PresignOnline(cfgs[id].(*cmp.Config), pres[id], msg, nil) }, sid)
+		s.Makers[id] = multi(func() protocol.StartFunc { return cmp.PresignOnline(cfgs[id].(*cmp.Config), pres[id], msg, Pool) }, sid)
 	}
 	return s
 }
@@ -185,24 +191,24 @@ func CmpPresignOnline(cfgs map[party.ID]interface{}, pres map[party.ID]*ecdsa.Pr
 // DoernerKeygen session: ids[0] is the receiver (leader), ids[1] the sender.
 func DoernerKeygen(recv, send party.ID, sid []byte) *Session {
 	s := &Session{Name: "doerner-keygen", IDs: sorted([]party.ID{recv, send}), Makers: map[party.ID]Maker{}, Two: true}
-	s.Makers[recv] = two(func() protocol.StartFunc { return doerner.Keygen(Group, true, recv, send, nil) }, sid, true)
-	s.Makers[send] = two(func() protocol.StartFunc { return doerner.Keygen(Group, false, send, recv, nil) }, sid, false)
+	s.Makers[recv] = two(func() protocol.StartFunc { return doerner.Keygen(Group, true, recv, send, Pool) }, sid, true)
+	s.Makers[send] = two(func() protocol.StartFunc { return doerner.Keygen(Group, false, send, recv, Pool) }, sid, false)
 	return s
 }
 
 // DoernerRefresh session.
 func DoernerRefresh(recv, send party.ID, cr *doerner.ConfigReceiver, cs *doerner.ConfigSender, sid []byte) *Session {
 	s := &Session{Name: "doerner-refresh", IDs: sorted([]party.ID{recv, send}), Makers: map[party.ID]Maker{}, Two: true}
-	s.Makers[recv] = two(func() protocol.StartFunc { return doerner.RefreshReceiver(cr, recv, send, nil) }, sid, true)
-	s.Makers[send] = two(func() protocol.StartFunc { return doerner.RefreshSender(cs, send, recv, nil) }, sid, false)
+	s.Makers[recv] = two(func() protocol.StartFunc { return doerner.RefreshReceiver(cr, recv, send, Pool) }, sid, true)
+	s.Makers[send] = two(func() protocol.StartFunc { return doerner.RefreshSender(cs, send, recv, Pool) }, sid, false)
 	return s
 }
 
 // DoernerSign session (both parties start, as in the library's own test).
 func DoernerSign(recv, send party.ID, cr *doerner.ConfigReceiver, cs *doerner.ConfigSender, msg []byte, sid []byte) *Session {
 	s := &Session{Name: "doerner-sign", IDs: sorted([]party.ID{recv, send}), Makers: map[party.ID]Maker{}, Two: true}
-	s.Makers[recv] = two(func() protocol.StartFunc { return doerner.SignReceiver(cr, recv, send, msg, nil) }, sid, true)
-	s.Makers[send] = two(func() protocol.StartFunc { return doerner.SignSender(cs, send, recv, msg, nil) }, sid, true)
+	s.Makers[recv] = two(func() protocol.StartFunc { return doerner.SignReceiver(cr, recv, send, msg, Pool) }, sid, true)
+	s.Makers[send] = two(func() protocol.StartFunc { return doerner.SignSender(cs, send, recv, msg, Pool) }, sid, true)
 	return s
 }
 
